@@ -1,5 +1,6 @@
 import Gallia.Proofs.Lemmas.Client
 import Gallia.Proofs.Lemmas.ClientIO
+import Gallia.Proofs.Lemmas.ClientSession
 import Gallia.Gen.C04Limits
 /-
   C04 — One client request ends with the outcome its reply / fault sequence implies.
@@ -213,6 +214,61 @@ example : (2 : Nat) < (run (exCfg 1) (script [.pending, .timeout, .posFinal] .ti
 -- retry-worthy events as the specification counts them: timeout, lost, busy = 3; writes = min (1+3) (2+1)
 example : retryEvents (bounds (exCfg 2)) (script [.timeout, .connErr, .busy] .posFinal) 3 = 3 := by
   simp [retryEvents, retryEventsFrom, stepPhase, script]
+
+/-! ## sessions: several requests by one process (`Model/ClientSession.lean`)
+
+  The property speaks of a single request; it must hold for each request of a process whatever that process has
+  requested (and parsed) before.  `runSession` runs the steps in order; the theorems say that nothing but the step
+  itself decides its result, and that the bounds add up.  The harness runs sessions of the real client in one fresh
+  process over request kinds that share sub-function ids and compares every step with `run` of that step alone. -/
+
+section Session
+
+/-- history independence: the result of a request is the result of that request alone, whatever requests (of whatever
+    configuration, answered by whatever events) the process served before it and serves after it -/
+theorem session_step (before after : List Step) (st : Step) :
+    (runSession (before ++ st :: after))[before.length]? = some (run st.1 st.2) := by
+  simp [runSession_eq]
+
+/-- one result per request, in order: a session is never cut short by what an earlier request ended with -/
+theorem session_length (steps : List Step) : (runSession steps).length = steps.length := by
+  simp [runSession_eq]
+
+/-- a request that is part of two sessions with different histories ends the same way in both -/
+theorem session_history_irrelevant (h₁ h₂ a₁ a₂ : List Step) (st : Step) :
+    (runSession (h₁ ++ st :: a₁))[h₁.length]? = (runSession (h₂ ++ st :: a₂))[h₂.length]? := by
+  rw [session_step, session_step]
+
+/-- transmissions of a whole session: at most `max_retry + 1` per request -/
+theorem session_writes_le (steps : List Step) :
+    sumBy Res.writes (runSession steps) ≤ sumBy (fun st => st.1.maxRetry + 1) steps := by
+  rw [runSession_eq]
+  induction steps with
+  | nil => simp [sumBy]
+  | cons st rest ih =>
+    have h := writes_le st.1 st.2
+    simp only [sumBy, List.map_cons, List.sum_cons, List.map_map] at ih ⊢
+    omega
+
+/-- a whole session ends within the sum of the per-request time bounds -/
+theorem session_elapsed_le (steps : List Step) :
+    sumBy Res.elapsed (runSession steps) ≤ sumBy (fun st => elapsedBound st.1) steps := by
+  rw [runSession_eq]
+  induction steps with
+  | nil => simp [sumBy]
+  | cons st rest ih =>
+    have h := elapsed_le st.1 st.2
+    simp only [sumBy, List.map_cons, List.sum_cons, List.map_map] at ih ⊢
+    omega
+
+-- non-vacuity: startRoutine answered at once, then a request answered after responsePending, then one after a timeout
+-- and a retry - three different results, each the one of its own events
+example : (runSession [(exCfg 0, script [.posFinal] .timeout), (exCfg 0, script [.pending, .posFinal] .timeout),
+      (exCfg 1, script [.timeout, .posFinal] .timeout)]).map Res.out = [.reply 0, .reply 1, .reply 1] := by
+  simp [runSession_eq]
+  refine ⟨?_, ?_, ?_⟩ <;> run_eval
+
+end Session
 
 /-! ## widened alphabet: `write()` and `reconnect_unsafe()` can fail too (`Model/ClientIO.lean`)
 
